@@ -25,6 +25,8 @@ type LeaseScenario struct {
 
 func (sc *LeaseScenario) String() string {
 	switch sc.Kind {
+	case "handover":
+		return fmt.Sprintf("handover lease=%v first-tenure=%.1f leases", sc.Lease, sc.Holds)
 	case "kept":
 		return fmt.Sprintf("kept lease=%v hold=%.1f leases renewal-faults=%v", sc.Lease, sc.Holds, sc.RenewFaults)
 	case "lapse":
@@ -146,6 +148,57 @@ func (sc *LeaseScenario) Build(obs *LeaseObs) func() {
 			})
 			vsched.WaitFor("all", func() bool { return hdone && cdone && pdone })
 			obs.Summary = fmt.Sprintf("renewals=%d", strings.Count(strings.Join(calls, ";"), "holder.Cas -> <nil>"))
+		case "handover":
+			// a waiter that was blocked for a long time takes over and must itself keep the lease:
+			// the record it creates has to be fresh (expiry computed at creation, renewal armed)
+			holding := 0 // 1 first holder, 2 second holder
+			hdone, cdone, pdone, finished := false, false, false, false
+			vsched.GoNamed("holder", func() {
+				defer func() { hdone = true }()
+				lkH.Lock()
+				holding = 1
+				vsched.Sleep(time.Duration(sc.Holds * float64(L)))
+				holding = 0
+				lkH.Unlock()
+				vsched.Note("first holder unlocked at +%v", now())
+			})
+			vsched.GoNamed("contender", func() {
+				defer func() { cdone = true }()
+				vsched.Sleep(L / 10)
+				if err := lkC.LockWithCtx(bg); err != nil {
+					obs.fail("handover:contender-error", "contender's LockWithCtx returned %v", err)
+					return
+				}
+				if holding != 0 {
+					obs.fail("handover:two-holders", "the waiting contender acquired at +%v while the first holder still holds", now())
+				}
+				holding = 2
+				vsched.Note("contender acquired at +%v after waiting %.1f leases", now(), float64(now())/float64(L))
+				vsched.Sleep(2*L + L/2)
+				recordAlive("second holder before Unlock")
+				holding = 0
+				lkC.Unlock()
+				finished = true
+			})
+			vsched.GoNamed("prober", func() {
+				defer func() { pdone = true }()
+				vsched.Sleep(L / 8)
+				for !finished && obs.Problem == "" {
+					if holding != 0 {
+						h := holding
+						recordAlive(fmt.Sprintf("probe during tenure %d", h))
+						if lkP.TryLock(bg) {
+							if holding != 0 {
+								obs.fail("handover:two-holders", "a TryLock of a third provider succeeded at +%v while holder %d holds the lock (its record was not kept alive)", now(), holding)
+							}
+							lkP.Unlock()
+						}
+					}
+					vsched.Sleep(L / 4)
+				}
+			})
+			vsched.WaitFor("all", func() bool { return hdone && cdone && pdone })
+			obs.Summary = "handover"
 		case "lapse":
 			dead := false
 			gH.Dead = &dead
